@@ -157,6 +157,87 @@ def run(chk):
         open(p, 'wb').write(fontd)
         keep[p] = '%s: lz4 block %s osz %d' % (what, f[2][:40], osz)
         cases.append('z%d api %s %d %s - info' % (len(cases), p, rng.choice((0, 2, 6)), rng.choice(('cb', 'file'))))
+    # pass headers: compiled GDL-lite fonts with field-level edits of one pass (counts, offsets, lengths, the pass boundaries in the
+    # Silf header).  The loader must not accept a pass that the model of Pass::readPass rejects.
+    from props import c06, cmapgen
+    pmexe = vlib.build_model_driver('Pass')
+    gbase = open(os.path.join(vlib.REPO, 'tests/fonts', c06.BASE), 'rb').read()
+    gcm = cmapgen.parse_font_cmap(os.path.join(vlib.REPO, 'tests/fonts', c06.BASE))
+    ginv = {}
+    for c_, g_ in gcm.items():
+        if 0x21 <= c_ <= 0x7E and g_:
+            ginv.setdefault(g_, c_)
+    pcases, pmodel, pidx = [], [], []
+    for k in range(2500 if thorough else 300):
+        prog, nsub = c06.gen_program(rng, sorted(ginv))
+        silf = bytearray(K.compile_silf(prog, K.base_info(gbase)[0] - 1, nsub))
+        sub = 12
+        npass = silf[sub + 6]
+        op = sub + 6 + 14 + 6 + 3 + 1 + 1 + 1 + 2                       # offset of oPasses[] (fixed header of compile_silf)
+        offs = [struct.unpack('>I', silf[op + 4 * i:op + 4 * i + 4])[0] for i in range(npass + 1)]
+        pi = rng.randrange(npass)
+        ps = sub + offs[pi]
+        what = 'none'
+        if rng.random() < 0.9:
+            kind = rng.random()
+            if kind < 0.55:                                               # a 16-bit header field
+                fo = rng.choice((4, 24, 26, 28, 30, 32))
+                v = struct.unpack('>H', silf[ps + fo:ps + fo + 2])[0]
+                nv = rng.choice((0, 1, v + 1, max(0, v - 1), v * 2, 0x7FFF, 0x8000, 0xFFFF, v + 2)) & 0xFFFF
+                silf[ps + fo:ps + fo + 2] = struct.pack('>H', nv); what = 'u16@%d %d->%d' % (fo, v, nv)
+            elif kind < 0.75:                                             # a code offset
+                fo = rng.choice((8, 12, 16))
+                v = struct.unpack('>I', silf[ps + fo:ps + fo + 4])[0]
+                nv = rng.choice((0, v + 1, v - 1, v + 2, 0xFFFFFFFF, v // 2)) & 0xFFFFFFFF
+                silf[ps + fo:ps + fo + 4] = struct.pack('>I', nv); what = 'u32@%d %d->%d' % (fo, v, nv)
+            elif kind < 0.9:                                              # any byte of the pass body (arrays, offsets, pre-context bounds)
+                ln = offs[pi + 1] - offs[pi]
+                fo = rng.randrange(40, ln)
+                nv = rng.choice((0, 1, 255, silf[ps + fo] + 1 & 255, silf[ps + fo] - 1 & 255))
+                what = 'u8@%d %d->%d' % (fo, silf[ps + fo], nv); silf[ps + fo] = nv
+            else:                                                         # the pass boundaries
+                j = rng.choice((pi, pi + 1))
+                nv = (offs[j] + rng.choice((1, -1, 2, -2, 7, -40, 40))) & 0xFFFFFFFF
+                silf[op + 4 * j:op + 4 * j + 4] = struct.pack('>I', nv); what = 'oPasses[%d] %d->%d' % (j, offs[j], nv)
+        offs2 = [struct.unpack('>I', silf[op + 4 * i:op + 4 * i + 4])[0] for i in range(npass + 1)]
+        p = os.path.join(tmp, 'ph%d.ttf' % k)
+        open(p, 'wb').write(K.replace_table(gbase, b'Silf', bytes(silf)))
+        keep[p] = 'compiled font, pass %d: %s' % (pi, what)
+        pcases.append('ph%d api %s %d cb - info' % (k, p, rng.choice((0, 6))))
+        lsub = len(silf) - sub
+        for i in range(npass):
+            a, b = offs2[i], offs2[i + 1]
+            if a <= b and offs2[0] <= a and b <= lsub:
+                body = bytes(silf[sub + a:sub + b])
+                flags = body[0] if body else 0
+                pmodel.append('ph%d.%d pass %d %d %s' % (k, i, a, 1 if (flags & 0x1f) == 0 else 0, body.hex() or '-'))
+                pidx.append(k)
+            else:
+                pmodel.append('ph%d.%d pass 0 1 -' % (k, i)); pidx.append(k)     # the Silf header already refuses these boundaries
+    _, phl, _ = vlib.run_pair(None, hexe, pcases, timeout=3000)
+    pml, _, _ = vlib.run_pair(pmexe, None, pmodel, timeout=3000)
+    verdicts = {}
+    for k, m in zip(pidx, pml):
+        v = (m or 'x P none').split()[2]
+        verdicts.setdefault(k, []).append(v)
+    pstat = {}
+    for k, (c, l) in enumerate(zip(pcases, phl)):
+        if l is None:
+            chk.tie_break('harness', 'no result line', c[:300]); continue
+        t = l.split()
+        vs = verdicts.get(k, [])
+        if 'ABORT' in t[1:3]:
+            chk.violation('c01:pass-abort:%s' % keep[c.split()[2]][:100], 'loading a font with an edited pass aborted: %s' % l[:300], dict(case=c, got=l[:800], mutation=keep[c.split()[2]])); continue
+        okf = 'face=ok' in t
+        st = ('ok' if okf else 'null') + '/' + ('accept' if vs and all(v == 'accept' for v in vs) else 'reject' if 'reject' in vs else 'other')
+        pstat[st] = pstat.get(st, 0) + 1
+        if 'trap' in vs:
+            ndis += 1; chk.tie_break('model:pass', 'the pass model traps (contradicts C01_read_pass_safe)', c[:200])
+        if okf and 'reject' in vs:
+            ndis += 1
+            chk.tie_break('correspondence:readPass', 'the loader accepted a font whose pass the model of Pass::readPass rejects (%s): a bounds or consistency test is no longer made' % keep[c.split()[2]], c[:300])
+        classes.add(('pass', st, keep[c.split()[2]].split(': ')[1].split(' ')[0][:10]))
+    chk.notes.append('pass headers: %s' % sorted(pstat.items()))
     _, al, _ = vlib.run_pair(None, hexe, cases, timeout=3000)
     stats = {}
     for c, l in zip(cases, al):
@@ -185,10 +266,10 @@ def run(chk):
             chk.violation('c01:%s:%s' % (t[2] if 'ABORT' in t[1:3] and len(t) > 2 else 'leak', keep.get(f[2], '?')[:100]), bad, rp)
     shutil.rmtree(tmp, ignore_errors=True)
     chk.notes.append('load oracle: %s; %d historical crashers replayed' % (sorted(stats.items()), nhist))
-    chk.cov.update(evaluations=len(scases) + len(cases), distinct_nontrivial=len(classes), disagreements_checked=ndis, distribution=dist,
+    chk.cov.update(evaluations=len(scases) + len(cases) + len(pcases), distinct_nontrivial=len(classes), disagreements_checked=ndis, distribution=dist,
                    rule='container: synthetic sfnt files (0..41 tables, offsets / lengths at, just past and far past the end, 32-bit extremes, wrong scaler, truncation anywhere, disagreeing table count) through FileFace '
                         'and the model, table by table; oracle: %d historical single-byte crashers from tests/fuzz-tests plus byte-mutated (60%%), directory-mutated (25%%) and truncated (15%%) copies of the 16 shipped fonts x '
-                        'option bits 0..7 x {callbacks, file}, plus the LZ4 block families of C14 wrapped as compressed Silf / Glat tables: make, all face / feature / label / feature-value queries, glyph lookups, destroy, LeakSanitizer; non-trivial = distinct (source, options, mode, verdict)' % nhist,
+                        'option bits 0..7 x {callbacks, file}, plus the LZ4 block families of C14 wrapped as compressed Silf / Glat tables: make, all face / feature / label / feature-value queries, glyph lookups, destroy, LeakSanitizer; compiled GDL-lite fonts with field-level edits of one pass (16/32-bit header fields, body bytes, pass boundaries): loader verdict against the model of Pass::readPass; non-trivial = distinct (source, options, mode, verdict)' % nhist,
                    samples=[scases[0][:200], cases[0][:200]], exhaustive=False)
 
 
